@@ -67,8 +67,12 @@ def is_char_count(e):
     core = strip_load(e)
     if core[0] == "call":
         last = core[1].split("::")[-1]
-        if last == "count" and core[2] and is_chars(core[2][0]) and not iter_adaptors(core[2][0]):
-            return True
+        if last == "count" and core[2] and is_chars(core[2][0]):
+            ads = iter_adaptors(core[2][0])
+            # `.take(k)` with k >= 2 cannot turn another count into 1 (nor 1 into another)
+            if all(an == "take" and ex and strip_load(ex[0])[0] == "const" and type(strip_load(ex[0])[1]) is int and strip_load(ex[0])[1] >= 2
+                   for an, ex in ads):
+                return True
         if last == "len" and core[2] and strip_load(core[2][0])[0] == "call" and strip_load(core[2][0])[1].split("::")[-1] == "collect" \
                 and strip_load(core[2][0])[2] and strip_load(strip_load(core[2][0])[2][0])[0] == "iter" and is_chars(strip_load(core[2][0])[2][0]):
             return True
